@@ -24,15 +24,15 @@ func sqrtMinusZ() [2]*big.Int {
 
 // specSqrtRatio is sqrt_ratio_3mod4 (RFC 9380 F.2.1.2) with c2 given.
 func specSqrtRatio(u, v *absint.Poly, c2 *big.Int) (y *absint.Poly, isQR *absint.Term) {
-	tv1 := v.Mul(v)            // 1
-	tv2 := u.Mul(v)            // 2
-	tv1 = tv1.Mul(tv2)         // 3
-	y1 := tv1.Pow(pMinus3Div4) // 4
-	y1 = y1.Mul(tv2)           // 5
-	y2 := y1.ScaleC(c2)        // 6
-	tv3 := y1.Mul(y1)          // 7
-	tv3 = tv3.Mul(v)           // 8
-	isQR = absint.ISZ(tv3.Sub(u)) // 9
+	tv1 := v.Mul(v)                                      // 1
+	tv2 := u.Mul(v)                                      // 2
+	tv1 = tv1.Mul(tv2)                                   // 3
+	y1 := tv1.Pow(pMinus3Div4)                           // 4
+	y1 = y1.Mul(tv2)                                     // 5
+	y2 := y1.ScaleC(c2)                                  // 6
+	tv3 := y1.Mul(y1)                                    // 7
+	tv3 = tv3.Mul(v)                                     // 8
+	isQR = absint.ISZ(tv3.Sub(u))                        // 9
 	y = y2.Add(absint.EmbPred(FP, isQR).Mul(y1.Sub(y2))) // 10  CMOV(y2, y1, isQR)
 	return
 }
@@ -49,31 +49,31 @@ func specSSWU(u *absint.Poly, c2 *big.Int) (x, y *absint.Poly) {
 	Z := absint.PolyConst(FP, sswuZ)
 	A := absint.PolyConst(FP, isoA)
 	B := absint.PolyConst(FP, isoB)
-	tv1 := u.Mul(u)                   // 1
-	tv1 = Z.Mul(tv1)                  // 2
-	tv2 := tv1.Mul(tv1)               // 3
-	tv2 = tv2.Add(tv1)                // 4
-	tv3 := tv2.Add(pInt(FP, 1))       // 5
-	tv3 = B.Mul(tv3)                  // 6
+	tv1 := u.Mul(u)                                         // 1
+	tv1 = Z.Mul(tv1)                                        // 2
+	tv2 := tv1.Mul(tv1)                                     // 3
+	tv2 = tv2.Add(tv1)                                      // 4
+	tv3 := tv2.Add(pInt(FP, 1))                             // 5
+	tv3 = B.Mul(tv3)                                        // 6
 	tv4 := cmov(Z, tv2.Neg(), absint.PNot(absint.ISZ(tv2))) // 7  CMOV(Z, -tv2, tv2 != 0)
-	tv4 = A.Mul(tv4)                  // 8
-	tv2 = tv3.Mul(tv3)                // 9
-	tv6 := tv4.Mul(tv4)               // 10
-	tv5 := A.Mul(tv6)                 // 11
-	tv2 = tv2.Add(tv5)                // 12
-	tv2 = tv2.Mul(tv3)                // 13
-	tv6 = tv6.Mul(tv4)                // 14
-	tv5 = B.Mul(tv6)                  // 15
-	tv2 = tv2.Add(tv5)                // 16
-	x = tv1.Mul(tv3)                  // 17
-	y1, isGx1Square := specSqrtRatio(tv2, tv6, c2) // 18
-	y = tv1.Mul(u)                    // 19
-	y = y.Mul(y1)                     // 20
-	x = cmov(x, tv3, isGx1Square)     // 21
-	y = cmov(y, y1, isGx1Square)      // 22
-	e1 := absint.PNot(absint.PXor(sgn0(u), sgn0(y))) // 23
-	y = cmov(y.Neg(), y, e1)          // 24
-	x = x.Mul(tv4.Inv())              // 25  x = x / tv4
+	tv4 = A.Mul(tv4)                                        // 8
+	tv2 = tv3.Mul(tv3)                                      // 9
+	tv6 := tv4.Mul(tv4)                                     // 10
+	tv5 := A.Mul(tv6)                                       // 11
+	tv2 = tv2.Add(tv5)                                      // 12
+	tv2 = tv2.Mul(tv3)                                      // 13
+	tv6 = tv6.Mul(tv4)                                      // 14
+	tv5 = B.Mul(tv6)                                        // 15
+	tv2 = tv2.Add(tv5)                                      // 16
+	x = tv1.Mul(tv3)                                        // 17
+	y1, isGx1Square := specSqrtRatio(tv2, tv6, c2)          // 18
+	y = tv1.Mul(u)                                          // 19
+	y = y.Mul(y1)                                           // 20
+	x = cmov(x, tv3, isGx1Square)                           // 21
+	y = cmov(y, y1, isGx1Square)                            // 22
+	e1 := absint.PNot(absint.PXor(sgn0(u), sgn0(y)))        // 23
+	y = cmov(y.Neg(), y, e1)                                // 24
+	x = x.Mul(tv4.Inv())                                    // 25  x = x / tv4
 	return
 }
 
